@@ -1,10 +1,65 @@
-/- Frozen copies of the syntax trees of the loop-carrying handlers, written by
-   `translators/gen_expr_c18.py --freeze` from the tree the hand model in Model.lean was written against
-   (and re-frozen after each reviewed change of those functions).  `C18_gen_shape_*` compare them with
-   the trees regenerated on every run. -/
+/- TRIPWIRES.  Frozen copies of the normalised syntax trees of small members of include/mp/expr.h whose
+   meaning `GenSem.lean` assumes (accessors of Function / PLTerm / CallExpr / StringLiteral, the factory's string
+   copy), written by `translators/gen_expr_c18.py --freeze` after a reviewed change.  `C18_gen_helper_*` compare them
+   with the trees regenerated on every run: they detect a change, they prove nothing about what the members do. -/
 import MpVerif.C18.GenTypes
 namespace MpVerif.C18.Frozen
 open MpVerif.C18
+
+def helperShape_BasicExprFactory_Copy : Sx :=
+  .n "CXXMethodDecl" "" [
+   .n "ParmVarDecl" "src : fmt::StringRef" [],
+   .n "ParmVarDecl" "dst : char *" [],
+   .n "CompoundStmt" "" [
+    .n "DeclStmt" "" [
+     .n "VarDecl" "s : const char *" [
+      .n "CXXMemberCallExpr" "" [
+       .n "MemberExpr" "data" [
+        .n "DeclRefExpr" "src" []]]]],
+    .n "DeclStmt" "" [
+     .n "VarDecl" "size : std::size_t" [
+      .n "CXXMemberCallExpr" "" [
+       .n "MemberExpr" "size" [
+        .n "DeclRefExpr" "src" []]]]],
+    .n "CallExpr" "" [
+     .n "DeclRefExpr" "copy" [],
+     .n "DeclRefExpr" "s" [],
+     .n "BinaryOperator" "+" [
+      .n "DeclRefExpr" "s" [],
+      .n "DeclRefExpr" "size" []],
+     .n "CallExpr" "" [
+      .n "DeclRefExpr" "make_ptr" [],
+      .n "DeclRefExpr" "dst" [],
+      .n "DeclRefExpr" "size" []]],
+    .n "BinaryOperator" "=" [
+     .n "ArraySubscriptExpr" "" [
+      .n "DeclRefExpr" "dst" [],
+      .n "DeclRefExpr" "size" []],
+     .n "IntegerLiteral" "0" []]]]
+
+def helperShape_BasicExprFactory_MakeStringLiteral : Sx :=
+  .n "CXXMethodDecl" "" [
+   .n "ParmVarDecl" "value : fmt::StringRef" [],
+   .n "CompoundStmt" "" [
+    .n "DeclStmt" "" [
+     .n "VarDecl" "impl : StringLiteral::Impl *" [
+      .n "CallExpr" "" [
+       .n "UnresolvedMemberExpr" "" [],
+       .n "DeclRefExpr" "STRING" [],
+       .n "CallExpr" "" [
+        .n "DeclRefExpr" "val" [],
+        .n "CXXMemberCallExpr" "" [
+         .n "MemberExpr" "size" [
+          .n "DeclRefExpr" "value" []]]]]]],
+    .n "CallExpr" "" [
+     .n "DeclRefExpr" "Copy" [],
+     .n "DeclRefExpr" "value" [],
+     .n "MemberExpr" "value" [
+      .n "DeclRefExpr" "impl" []]],
+    .n "ReturnStmt" "" [
+     .n "CallExpr" "" [
+      .n "DeclRefExpr" "Create" [],
+      .n "DeclRefExpr" "impl" []]]]]
 
 def helperShape_CallExpr_arg : Sx :=
   .n "CXXMethodDecl" "" [
